@@ -21,7 +21,9 @@ QUICK_ZONES = ["Europe/Paris", "America/New_York", "Australia/Lord_Howe", "Asia/
                "America/Havana", "Asia/Gaza", "Africa/Cairo", "America/Godthab", "UTC", "Asia/Tokyo",
                "Pacific/Tongatapu", "America/Santiago", "Australia/Sydney", "Europe/Moscow", "Asia/Colombo",
                "Pacific/Norfolk", "America/Asuncion", "Africa/Juba", "Asia/Dhaka", "Pacific/Fiji",
-               "America/Port-au-Prince", "Europe/Istanbul", "Atlantic/Azores", "Indian/Cocos"]
+               "America/Port-au-Prince", "Europe/Istanbul", "Atlantic/Azores", "Indian/Cocos",
+               # legal IANA names that are links / legacy names (not in pytz.common_timezones)
+               "Asia/Calcutta", "NZ-CHAT", "Australia/LHI", "Europe/Kiev", "Asia/Katmandu", "Japan", "GB", "Etc/GMT+5"]
 
 
 def transitions(name, lo_year=1950, hi_year=2037):
@@ -110,9 +112,22 @@ def run_real_system(case):
             uj = UsageJourney("uj", uj_steps=[UsageJourneyStep("step", user_time_spent=SourceValue(1 * u.min), jobs=[job])])
             co = Country("co", "COU", SourceValue(100 * u.g / u.kWh), SourceObject(pytz.timezone(case["zone"])))
             up = UsagePattern("up", uj, [Device.from_defaults("dev")], Network.from_defaults("net"), co, starts)
-            System("sys", usage_patterns=[up])
+            system_ = System("sys", usage_patterns=[up])
             base = canon(up.utc_hourly_usage_journey_starts)
             case["_sim_verdicts"] = simulation_verdicts(up, base)
+            # … and as a saved model recomputes it: the zone must come back as the zone it was
+            try:
+                import json as _json
+                from efootprint.api_utils.system_to_json import system_to_json
+                from efootprint.api_utils.json_to_system import json_to_system
+                class_objs, _flat = json_to_system(_json.loads(_json.dumps(system_to_json(system_, save_calculated_attributes=False))))
+                up2 = list(class_objs["UsagePattern"].values())[0]
+                c2 = canon(up2.utc_hourly_usage_journey_starts)
+                rounded = [round(v, 3) for v in base["vs"]]
+                if c2["ks"] != base["ks"] or any(abs(a - b) > 1e-9 * max(1.0, abs(b)) for a, b in zip(c2["vs"], rounded)):
+                    case["_sim_verdicts"].append(f"conversion-differs-after-json-round-trip: zone loaded as {up2.country.timezone.value}, UTC keys {c2['ks'][:3]}… vs {base['ks'][:3]}…")
+            except Exception as e:  # noqa
+                case["_sim_verdicts"].append(f"json-round-trip-raises:{type(e).__name__}")
             return "ok", base
     except Exception as e:  # noqa
         return "err", err_enum(e)
@@ -278,7 +293,7 @@ def run_shard(args):
             out["system_path"] += 1
             st1, r1 = reals[k]
             for sv_ in c.pop("_sim_verdicts", []):
-                out["violations"].append({"signature": "C11:" + sv_.split(":", 1)[0] + (":" + sv_.split(":")[1] if sv_.startswith("simulation-raises") else ""),
+                out["violations"].append({"signature": "C11:" + sv_.split(":", 1)[0] + (":" + sv_.split(":")[1] if sv_.startswith(("simulation-raises", "json-round-trip-raises")) else ""),
                                           "detail": f"{c['zone']} start {c['start']}: {sv_}", "replay": {"case": c}})
             out["sim_dates"] = out.get("sim_dates", 0) + (len(r2["ks"]) if st2 == "ok" else 0)
             if st1 == "ok" and (st2 != "ok" or r2["ks"] != r1["ks"] or any(abs(a - b) > 1e-9 * max(1.0, abs(b)) for a, b in zip(r2["vs"], r1["vs"]))):
